@@ -139,6 +139,9 @@ func specLayersOK(p *FrameParser) bool {
 //@ ensures[C09.parse.class]  ret0 != nil && len(buffer) >= 1 ==> chain(ret0, *common.ReceiveProbeNoPktError) || chain(ret0, *common.BadPacketError)
 //@ ensures[C09.parse.only]   ret0 != nil ==> onlyRepoErrs(ret0, *common.ReceiveProbeNoPktError, *common.BadPacketError)
 //@ ensures[C09.parse.ok]     ret0 == nil ==> specParsed(p)
+// completeness (C02): a frame the decoder got an IP layer and a transport layer out of is accepted — also when the decoder
+// then stopped at a layer it does not know (payload bytes, extension-carrying quotes): trailing layers never cost a reply
+//@ ensures[C02.parse.compl]  ncalls(DecodeLayers) == old(ncalls(DecodeLayers)) + 1 && (lastres(DecodeLayers, 0) == nil || chain(lastres(DecodeLayers, 0), gopacket.UnsupportedLayerType)) && specLayersOK(p) ==> ret0 == nil
 //@ modifies FrameParser.IP4, FrameParser.IP6, FrameParser.TCP, FrameParser.ICMP4, FrameParser.ICMP6, FrameParser.Payload, FrameParser.Layers, gopacket.DecodingLayerParser
 
 //@ func ParseTCPFirstBytes
@@ -168,7 +171,7 @@ func specLayersOK(p *FrameParser) bool {
 //@ requires[pre.nonnil]    p != nil
 //@ requires[pre.parsed]    specParsed(p)
 //@ ensures[C09.ippair.ok]  ret1 == nil
-//@ ensures[C01+C04+C11.ippair.addr] ret0.SrcAddr == SpecOuterSrc(p) && ret0.DstAddr == SpecOuterDst(p)
+//@ ensures[C01+C02+C04+C11.ippair.addr] ret0.SrcAddr == SpecOuterSrc(p) && ret0.DstAddr == SpecOuterDst(p)
 //@ modifies nothing
 
 //@ func (*FrameParser).IsTTLExceeded
@@ -336,6 +339,8 @@ func specLayersOK(p *FrameParser) bool {
 //@ ensures[C09.rap.io]       ioFail == old(ioFail) || ret0 != nil
 // exactly the bytes just read are parsed — not the whole reusable buffer, whose tail still holds earlier packets
 //@ ensures[C09+C01.rap.exact] ncalls(Source.Read) == old(ncalls(Source.Read)) + 1 && lastres(Source.Read, 1) == nil && lastres(Source.Read, 0) > 0 ==> ncalls("(*FrameParser).Parse") == old(ncalls("(*FrameParser).Parse")) + 1 && len(lastarg("(*FrameParser).Parse", buffer)) == lastres(Source.Read, 0) && suffixOf(buffer[:lastres(Source.Read, 0)], lastarg("(*FrameParser).Parse", buffer)) && suffixOf(lastarg("(*FrameParser).Parse", buffer), buffer[:lastres(Source.Read, 0)])
+// and the parser's verdict on them is the result (a packet that parses is never turned into an error here)
+//@ ensures[C02+C09.rap.pass] ncalls("(*FrameParser).Parse") == old(ncalls("(*FrameParser).Parse")) + 1 ==> ret0 == lastres("(*FrameParser).Parse", 0)
 //@ ensures[C05.rap.clock]    now() >= old(now())
 // a read that hit the read deadline stays recognisable as such (errors.Is(..., os.ErrDeadlineExceeded)): callers that
 // wait under one absolute deadline (the SACK handshake) rely on it to stop
